@@ -183,8 +183,53 @@ def classify(P, o, cons, adts):
         t = body.term(o.bb)
         if t["args"] and len_le_one_guard(body, cons.bb, t["args"][0]):
             return "single element taken under a len() <= 1 guard on the same map"
+        why = exactly_taken_guard(body, o.bb, cons.bb)
+        if why:
+            return why
         return None
     return None
+
+
+def exactly_taken_guard(body, origin_bb, next_bb):
+    """`match (it.next(), it.next()) { (Some(x), None) => use(x), .. }`: the element taken at next_bb is only looked at
+    where the following next() on the same iterator returned None (the container then holds exactly the elements taken,
+    so which one came first cannot matter); an element that is never looked at only tells whether there is one"""
+    def from_origin(op):
+        cs = q.chains(body, op, stop=lambda r: r.kind == "call" and r.site == origin_bb)
+        return bool(cs) and all(r.kind == "call" and r.site == origin_bb for cn, r in cs)
+    nexts = [bb for bb, t in body.calls() if (callee_def(t) or "") == "std::iter::Iterator::next" and t["args"] and from_origin(t["args"][0])]
+    if next_bb not in nexts or any(bb in blks for blks in body.loops().values() for bb in nexts):
+        return None
+    later = [n for n in nexts if n != next_bb and body.must_pass_block(n, next_bb)]
+
+    def reads_payload(op):
+        return any(r.kind == "call" and r.site == next_bb and r.fields[:1] == ("#Some",) and len(r.fields) >= 2 for r in prov(body, op))
+    readers = []
+    for i in sorted(body.live_blocks()):
+        blk = body.blocks[i]
+        for st in blk["stmts"]:
+            if st["k"] != "assign":
+                continue
+            rv = st["rv"]
+            ops = [rv.get(k) for k in ("op", "l", "r", "x") if isinstance(rv.get(k), dict)] + [f["op"] for f in rv.get("fields", [])]
+            if rv["k"] in ("ref", "copyforderef") and "place" in rv:
+                ops.append({"k": "copy", "place": rv["place"]})
+            if rv["k"] == "discriminant":
+                continue
+            if any(o_.get("k") in ("copy", "move") and o_["place"]["p"] and reads_payload(o_) for o_ in ops):
+                readers.append(i)
+    if not readers:
+        return "the element taken is never looked at (only whether there is one)"
+    if not later:
+        return None
+    for i in readers:
+        ok = False
+        for a in mir.guards_at(body, i):
+            if a.kind == "variant" and tuple(a.label) == ("None",) and any(r.kind == "call" and r.site in later for r in a.subject):
+                ok = True
+        if not ok:
+            return None
+    return "the element is only looked at where the following next() on the same iterator returned None (exactly one element)"
 
 
 # an enumeration of origins and consumers: the written-out views add nothing to it
